@@ -4,6 +4,9 @@ import DigModel.Proofs.Views
 import DigModel.Proofs.GhBoundApi
 import DigModel.Proofs.GraphMeaningThm
 import DigModel.Proofs.ProvideStages
+import DigModel.Proofs.PgInv
+import DigModel.Proofs.GraphMeaningConv
+import DigModel.Proofs.AcycInv
 /-
   C05 — Cycle safety, graph part (internal/graph/graph.go, full strength, any graph size):
 
@@ -55,9 +58,24 @@ import DigModel.Proofs.ProvideStages
   * `C05_invoke_seeing_a_cycle_fails`: an Invoke from a scope not verified yet (DeferAcyclicVerification) that sees a
     dependency cycle fails with such an error, with no event at all: nothing is built, nothing runs;
   * `C05_acyclic_answer_excludes_dependency_cycles`: conversely an "acyclic" answer for `s` means there is no such cycle.
-  Edges through value groups are part of the holder graph (`edgesFrom`) and of the graph-level theorems above but
-  not yet of the constructor-level reading `DependsOn`; the converse direction (every edge of the holder is a
-  dependency) is likewise left to the correspondence check (cycle-heavy profile, K-graph), see DESIGN.md §7 C05.
+  * `C05_cycle_through_groups_is_found` (**whole programs**): the same with value-group edges.  A constructor depends
+    on the graph node of each of its value-group parameters (`NodeDep.toGroup`), that node depends on every visible
+    provider of the group (`NodeDep.fromGroup`); `C05_group_parameter_node`: in every reachable container the node of
+    a group parameter of a registered constructor stands for exactly that parameter's (element type, group) — the
+    parser links each grouped parameter to the descriptor it created for it (`PgLink`), the nodes are put into the
+    holders of the scope and all its descendants before the constructor's node is (`PG`).  A closed chain of such
+    dependencies among the nodes of `s`'s holder — it suffices that the *constructor* nodes are in the holder —
+    makes the check answer `cycle`.
+  * `C05_holder_edge_is_dependency`, `C05_reported_cycle_is_a_dependency_cycle` (**whole programs**, the converse): every
+    edge of a scope's holder graph joins two nodes of the holder of which the first depends on the second, so the path a
+    cycle answer lists is a closed chain of real dependencies — no false positive at the level of constructors either.
+  Together: for the nodes of a scope's holder, the graph `IsAcyclic` walks *is* the dependency graph under the most
+  permissive reading (`acyclic_iff_noCycle`: the check answers "acyclic" ⇔ no closed chain of dependencies exists).
+  * `C05_eager_containers_are_acyclic` (**whole programs**): without DeferAcyclicVerification, at the end of *every*
+    history every scope's check answers "acyclic" and no scope sees a dependency cycle — accepted Provides verify the
+    scopes they affect and leave all other scopes' graphs as they were (`localSame_work`), rejected operations are rolled
+    back, a parse (Decorate, Invoke) only appends fresh value-group nodes nothing depends on (`NoCycle.grow`), a new
+    scope shows its parent's graph (`localSame_scope`), the resolver touches no graph (`localSame_regFrame`).
 -/
 namespace Dig.C05
 open Dfs
@@ -188,6 +206,40 @@ theorem C05_invoke_seeing_a_cycle_fails (p : Program) (fn : Fn) (s : Nat) (info 
   invoke_rejects_dependency_cycle (gt_program p) (program_safeInv p).ob p.ctx fn s info hnf params w hpp hsh hunv hs
     a l hl hin hc hclosed
 
+theorem C05_cycle_through_groups_is_found (p : Program) (s : Nat) (a : GNode) (l : List GNode) (hl : l ≠ [])
+    (hin : ∀ n, GNode.ctor n ∈ a :: l → GNode.ctor n ∈ ((runProgram p).1.scope s).gh)
+    (hc : NodeChain (runProgram p).1 s (a :: l)) (hclosed : (a :: l).getLast (by simp) = a) :
+    ∃ path, checkAcyclic (runProgram p).1 s = .cycle path :=
+  node_cycle_is_found (gt_program p).gm (program_safeInv p).ob s a l hl
+    (chain_nodes_in_holder (pg_program p) s a l hl hc hclosed hin) hc hclosed
+
+theorem C05_holder_edge_is_dependency (p : Program) (s : Nat) (hs : s < (runProgram p).1.scopes.length) (u v : Nat) (x : GNode)
+    (hu : ((runProgram p).1.scope s).gh[u]? = some x) (hv : v ∈ edgesFrom (runProgram p).1 s u) :
+    ∃ y, ((runProgram p).1.scope s).gh[v]? = some y ∧ NodeDep (runProgram p).1 s x y :=
+  edge_is_dependency (gt_program p).gm (pg_program p) s hs u v x hu hv
+
+theorem C05_reported_cycle_is_a_dependency_cycle (p : Program) (s : Nat) (hs : s < (runProgram p).1.scopes.length)
+    (path : List Nat) (h : checkAcyclic (runProgram p).1 s = .cycle path) :
+    2 ≤ path.length ∧ path.head? = path.getLast? ∧
+    ∀ j u v, path[j]? = some u → path[j + 1]? = some v →
+      ∃ x y, ((runProgram p).1.scope s).gh[u]? = some x ∧ ((runProgram p).1.scope s).gh[v]? = some y ∧
+        NodeDep (runProgram p).1 s x y :=
+  reported_cycle_is_real (gt_program p).gm (pg_program p) s hs path h
+
+theorem C05_eager_containers_are_acyclic (p : Program) (hd : p.cfg.deferAcyclic = false) (s : Nat)
+    (hs : s < (runProgram p).1.scopes.length) :
+    checkAcyclic (runProgram p).1 s = .acyclic ∧ NoCycle (runProgram p).1 s := eager_program_acyclic p hd s hs
+
+theorem C05_acyclic_iff_no_dependency_cycle (p : Program) (s : Nat) (hs : s < (runProgram p).1.scopes.length) :
+    checkAcyclic (runProgram p).1 s = .acyclic ↔ NoCycle (runProgram p).1 s :=
+  acyclic_iff_noCycle (gt_program p).gm (pg_program p) (program_safeInv p).ob s hs
+
+theorem C05_group_parameter_node (p : Program) (n : Nat) (hn : n < (runProgram p).1.ctors.length) (k : Key) (pg : Nat)
+    (hm : (k, pg) ∈ pGroupLeavesL ((runProgram p).1.ctor n).params) (s : Nat) :
+    NodeDep (runProgram p).1 s (.ctor n) (.pg pg) ∧
+    pgKey (runProgram p).1 pg = { ty := k.ty, name := "", group := k.group } :=
+  group_param_node (pg_program p) n hn k pg hm s
+
 /-- every constructor visible from a scope is a node of that scope's holder (whole programs) -/
 theorem C05_visible_providers_are_nodes (p : Program) (s : Nat) (hs : s < (runProgram p).1.scopes.length) (k : Key) (m : Nat)
     (hm : m ∈ (runProgram p).1.allProviders s k) : GNode.ctor m ∈ ((runProgram p).1.scope s).gh :=
@@ -197,6 +249,12 @@ theorem C05_visible_providers_are_nodes (p : Program) (s : Nat) (hs : s < (runPr
 example (st : St) (s n : Nat) (h : DependsOn st s n n) : DepChain st s [n, n] ∧ [n, n].getLast (by simp) = n :=
   ⟨⟨h, trivial⟩, rfl⟩
 
+#print axioms C05_eager_containers_are_acyclic
+#print axioms C05_acyclic_iff_no_dependency_cycle
+#print axioms C05_holder_edge_is_dependency
+#print axioms C05_reported_cycle_is_a_dependency_cycle
+#print axioms C05_cycle_through_groups_is_found
+#print axioms C05_group_parameter_node
 #print axioms C05_provide_closing_a_cycle_fails
 #print axioms C05_invoke_seeing_a_cycle_fails
 #print axioms C05_dependency_cycle_is_found
